@@ -144,7 +144,9 @@ func localAddr(a ssa.Value) bool {
 		case *ssa.IndexAddr:
 			// element of an array addressed in place; a slice element is heap memory
 			if _, isSlice := x.X.Type().Underlying().(*types.Slice); isSlice {
-				return false
+				// a slice made by this very call (`out := make(…)`) is dropped with the error like any local
+				_, fresh := ir.ResolveCell(x.X).(*ssa.MakeSlice)
+				return fresh
 			}
 			a = x.X
 		default:
